@@ -130,7 +130,10 @@ def cases(draw):
     if with_distinct:
         # an axiom with its own disjoint-variable restriction, and a top-level $d over three or more variables declared
         # after the axioms (so it only restricts the lemmas and serves as their context)
-        lines.append('${ $d ph0 ph1 $. ax-d $a |- ( \\imp ph0 ph1 ) $. $}')
+        # (sometimes the restriction also names a variable that occurs nowhere in the axiom: it still has to be declared in a slice)
+        spurious = [v for v in g.vars if v not in ('ph0', 'ph1')]
+        extra_d = (' ' + draw(st.sampled_from(spurious))) if spurious and draw(st.booleans()) else ''
+        lines.append('${ $d ph0 ph1%s $. ax-d $a |- ( \\imp ph0 ph1 ) $. $}' % extra_d)
         dvars = list(draw(st.permutations(g.vars)))[: draw(st.integers(3, len(g.vars)))] if len(g.vars) >= 3 else list(g.vars)
         lines.append('$d %s $.' % ' '.join(dvars))
     elif draw(st.integers(0, 3)) == 0 and len(g.vars) >= 2:
@@ -174,6 +177,9 @@ def cases(draw):
         if draw(st.integers(0, 4)) == 0 and len(set(target_vars)) >= 2:
             dv = draw(st.lists(st.sampled_from(sorted(set(target_vars))), min_size=2, max_size=2, unique=True))
             dline = '$d %s $. ' % ' '.join(dv)
+        elif draw(st.integers(0, 5)) == 0 and set(target_vars) and set(g.vars) - set(target_vars):
+            # a restriction naming a variable that occurs in no statement of the lemma's block
+            dline = '$d %s %s $. ' % (draw(st.sampled_from(sorted(set(target_vars)))), draw(st.sampled_from(sorted(set(g.vars) - set(target_vars)))))
         if hyp is not None or dline:
             lines.append('${ %s%s%s $p |- %s $= %s $. $}' % (dline, ('%s.0 $e |- %s $. ' % (label, mmgen.tstr(hyp))) if hyp is not None else '', label, mmgen.tstr(goal), proof))
         else:
